@@ -30,6 +30,22 @@
       `C03_tree_generate_ok`; `C03_chain_sound_complete`: every CHAIN program is in the fragment.
     * `C03_bare_sound_all_graphs`: with bare arguments the SOUNDNESS half holds for every call
       graph (diamonds, recursion); only completeness needs the tree shape.
+  The instance of an initialiser (`T = K(args)`, T a name / attribute / item):
+    * `C03_classAssign_binds_target`: for EVERY statement diverted to `visit_ClassAssign`, the Call
+      record's first argument is the FULL spelling of the target (`holder.pt`), the set is
+      `Name(full, base)`; `pipeline_test_instance_targets`, `pipeline_instance_stored_in_attribute`:
+      end to end on `holder.pt = Point(a)` / `table.rows[0] = Point(a)` (`pipeline_depth_one` applied).
+  PROJECTS — target + followed modules in one model (`RattrModel/Project.lean`: per-file root context
+  and file walk, location-aware `find_call_target_and_ir` (`locate`, `realClassP`, `resolveImportP`),
+  `seen` keyed on (Call symbol, calling file), ONE store over all files):
+    * `project_composition`, `project_own_and_calls`, `project_tree_sound_complete`,
+      `project_sound_all_graphs`: the stage-local theorems lifted to the combined program `toProgP`;
+    * `project_function_resolves_in_its_own_file`, `project_class_resolves_in_its_own_file`: in a
+      path-coherent environment a Func / Class target found in file i resolves only into a file with
+      the path of i — never a same-named function / class of the target or of another module;
+    * `project_single_file_resolution`: on a one-file environment the resolver is `Pipeline.resolveCall`;
+    * `project_test_two_helpers`, `project_two_helpers_closure`, `project_test_same_record_two_files`:
+      kernel evaluation of the whole project model on two followed modules with same-named helpers.
 -/
 import RattrProofs.Lemmas.Results
 import RattrProofs.Lemmas.ResultsCex
@@ -40,6 +56,8 @@ import RattrProofs.Lemmas.ResultsTreeSpec
 import RattrProofs.Lemmas.ResultsTreeCheck
 import RattrProofs.Props.C04
 import RattrProofs.Lemmas.Pipeline
+import RattrProofs.Lemmas.Project
+import RattrProofs.Lemmas.C03ClassAssign
 
 namespace Rattr.C03
 open Rattr Rattr.Results Rattr.Cex
@@ -1260,4 +1278,626 @@ example : ∃ e, Dict.get? docD (S' "top") = some e ∧ ∀ n ∈ e.gets, Spec.D
   exact ⟨e, he, hg⟩
 
 
+
+/-! ## The instance a class initialiser is bound to (`holder.pt = Point(a)`)
+
+`visit_ClassAssign` records the Call to the initialiser with the FULL spelling of the assignment
+target as its first argument; result generation substitutes the initialiser's `self` by it. -/
+
+/-- **`C03_classAssign_binds_target`** — for EVERY statement `targets = value` the function visitor
+diverts to `visit_ClassAssign` and completes: the first target is named `(base, name)`, and the IR
+then holds a Call record whose first positional argument is `name` — the spelling of the whole
+target (`holder.pt`, `table.rows[]`), not its base variable — with the class's call target, and the
+set `Name(name, base)`. (`FnA.classAssign_records`, Lemmas/C03ClassAssign.lean.) -/
+theorem C03_classAssign_binds_target {env : FnA.Env} {mn : Str} {targets : List Node} {v : Node} {s s' : St}
+    (hl : FnA.lambdaInRhs v = false) (hn : FnA.namedtupleInRhs v = false)
+    (hc : FnA.classInRhs env s.ctx v = .ok true)
+    (h : FnA.assignDiv env mn targets v s = .done (.ok s')) :
+    ∃ t rest f args kwn kwv base name cb cn,
+      targets = t :: rest ∧ v = .call f args kwn kwv ∧ namesOf false t = .ok base name ∧
+      namesOf false v = .ok cb cn ∧
+      (∃ c ∈ s'.calls, c.args.head? = some name ∧
+        c.target = (Context.getCallTarget env.ctxEnv s.ctx cn false true).1) ∧
+      (⟨name, base⟩ : NameS) ∈ s'.sets :=
+  FnA.classAssign_records hl hn hc h
+
+/-- the model's encoding (rendered by `py/tools/lean_module.py`) of
+
+```
+class Point:
+    def __init__(self, src):
+        self.x = src.value
+        self.y = src.other
+def make_local(a):
+    p = Point(a)
+    return p
+def make_attr(holder, a):
+    holder.pt = Point(a)
+    return holder
+def make_item(table, a):
+    table.rows[0] = Point(a)
+``` -/
+def modI : List Top :=
+  [.classDef "Point".toList []
+     [.funcDef "__init__".toList ⟨[], ["self".toList, "src".toList], none, [], none⟩
+      [(.assign [(.attr (.name "self".toList .load) "x".toList .store)] (.attr (.name "src".toList .load) "value".toList .load)), (.assign [(.attr (.name "self".toList .load) "y".toList .store)] (.attr (.name "src".toList .load) "other".toList .load))]
+      [] false]
+     [],
+   .funcDef "make_local".toList ⟨[], ["a".toList], none, [], none⟩
+      [(.assign [(.name "p".toList .store)] (.call (.name "Point".toList .load) [(.name "a".toList .load)] [] [])), (.ret [(.name "p".toList .load)])]
+      [] false,
+   .funcDef "make_attr".toList ⟨[], ["holder".toList, "a".toList], none, [], none⟩
+      [(.assign [(.attr (.name "holder".toList .load) "pt".toList .store)] (.call (.name "Point".toList .load) [(.name "a".toList .load)] [] [])), (.ret [(.name "holder".toList .load)])]
+      [] false,
+   .funcDef "make_item".toList ⟨[], ["table".toList, "a".toList], none, [], none⟩
+      [(.assign [(.sub (.attr (.name "table".toList .load) "rows".toList .load) .const .store)] (.call (.name "Point".toList .load) [(.name "a".toList .load)] [] []))]
+      [] false]
+
+/-- what `python -m rattr -o results -f 0` prints for that file (checked against the real CLI). -/
+def docI : ResultsDoc :=
+  [(S' "Point", ⟨[S' "src.other", S' "src.value"], [S' "self.x", S' "self.y"], [], []⟩),
+   (S' "make_local", ⟨[S' "a", S' "a.other", S' "a.value", S' "p"], [S' "p", S' "p.x", S' "p.y"], [], [S' "Point()"]⟩),
+   (S' "make_attr", ⟨[S' "a", S' "a.other", S' "a.value", S' "holder"], [S' "holder.pt", S' "holder.pt.x", S' "holder.pt.y"], [],
+     [S' "Point()"]⟩),
+   (S' "make_item", ⟨[S' "a", S' "a.other", S' "a.value"], [S' "table.rows[]", S' "table.rows[].x", S' "table.rows[].y"], [],
+     [S' "Point()"]⟩)]
+
+def firI : Pipeline.FileIr :=
+  match FileA.analyseFile envP (S' "target") {} [] modI with
+  | .ok (fir, _) => fir
+  | _ => []
+
+theorem firI_eq {fir : Pipeline.FileIr} {d0 : List Diag}
+    (h : FileA.analyseFile envP (S' "target") {} [] modI = .ok (fir, d0)) : fir = firI := by
+  unfold firI; rw [h]
+
+attribute [irreducible] firI
+
+def specI : Spec.SProg :=
+  specOf {} [] firI [sigP ["self", "src"], sigP ["a"], sigP ["holder", "a"], sigP ["table", "a"]]
+
+/-- TEST (kernel evaluation of the whole pipeline model on the module above): the document is the one
+the real CLI prints — the initialiser's `self.x`, `self.y` surface as `holder.pt.x`, `holder.pt.y`
+and `table.rows[].x`, `table.rows[].y`; no diagnostic. -/
+theorem pipeline_test_instance_targets :
+    run envP (S' "target") {} [] modI = .ok (docI, []) :=
+  eq_of_outcomeIs (by decide +kernel)
+
+/-- **`pipeline_instance_stored_in_attribute`** — `pipeline_depth_one` APPLIED to `make_attr` and
+`make_item` of the module above: the document entry is exactly the spec's one-level unfolding, in
+which the initialiser's `self` is rewritten to the spelled assignment target: `holder.pt.x`,
+`holder.pt.y` (never `holder.x`), `table.rows[].x`, `table.rows[].y`. -/
+theorem pipeline_instance_stored_in_attribute :
+    (∃ e, Dict.get? docI (S' "make_attr") = some e ∧
+      (∀ n, (n ∈ e.sets ↔ n ∈ (Spec.derive specI 1 2).sets) ∧ (n ∈ e.gets ↔ n ∈ (Spec.derive specI 1 2).gets))) ∧
+    (∃ e, Dict.get? docI (S' "make_item") = some e ∧
+      (∀ n, (n ∈ e.sets ↔ n ∈ (Spec.derive specI 1 3).sets) ∧ (n ∈ e.gets ↔ n ∈ (Spec.derive specI 1 3).gets))) ∧
+    (Spec.derive specI 1 2).sets = [S' "holder.pt", S' "holder.pt.x", S' "holder.pt.y"] ∧
+    (Spec.derive specI 1 3).sets = [S' "table.rows[]", S' "table.rows[].x", S' "table.rows[].y"] ∧
+    S' "holder.x" ∉ (Spec.derive specI 1 2).sets := by
+  refine ⟨?_, ?_, by decide +kernel, by decide +kernel, by decide +kernel⟩
+  · obtain ⟨fir, d0, hfile, hthm⟩ := pipeline_depth_one pipeline_test_instance_targets
+    have hfir : fir = firI := firI_eq hfile
+    subst hfir
+    obtain ⟨sym, ir, hk, hn, hlast⟩ := key_of_check (fir := firI) (k := 2) (name := S' "make_attr") (by decide +kernel)
+    obtain ⟨e, he, _, hmem⟩ := hthm [sigP ["self", "src"], sigP ["a"], sigP ["holder", "a"], sigP ["table", "a"]] 2 sym ir hk hlast
+      (localD1_of_check (by decide +kernel)) (edgeHyp_of_check (by decide +kernel))
+    rw [hn] at he
+    exact ⟨e, he, fun n => ⟨(hmem n).2.1, (hmem n).1⟩⟩
+  · obtain ⟨fir, d0, hfile, hthm⟩ := pipeline_depth_one pipeline_test_instance_targets
+    have hfir : fir = firI := firI_eq hfile
+    subst hfir
+    obtain ⟨sym, ir, hk, hn, hlast⟩ := key_of_check (fir := firI) (k := 3) (name := S' "make_item") (by decide +kernel)
+    obtain ⟨e, he, _, hmem⟩ := hthm [sigP ["self", "src"], sigP ["a"], sigP ["holder", "a"], sigP ["table", "a"]] 3 sym ir hk hlast
+      (localD1_of_check (by decide +kernel)) (edgeHyp_of_check (by decide +kernel))
+    rw [hn] at he
+    exact ⟨e, he, fun n => ⟨(hmem n).2.1, (hmem n).1⟩⟩
+
+end Rattr.C03
+
+/-! ## Projects: the target file and the followed modules in ONE model (`RattrModel/Project.lean`) -/
+
+namespace Rattr.C03
+open Rattr Rattr.Results Rattr.Pipeline Rattr.Spec Rattr.Project
+
+/-- the closure spec's view of a project: the adapter's program over ALL files and their own sets,
+with real signatures `sigs` (one per key of the concatenated FileIrs). -/
+def specOfP (pf : PFacts) (env : PEnv) (sigs : List (Spec.Sig Str)) : Spec.SProg :=
+  { prog := toProgP id pf env, sigs := sigs, own := toStore (gfir env) }
+
+theorem gfir_target {env : PEnv} {k : Nat} (hk : k < (fileAt env 0).fir.length) :
+    (gfir env)[k]? = (fileAt env 0).fir[k]? := by
+  cases env with
+  | nil => simp [fileAt, emptyFile] at hk
+  | cons e r =>
+    have : fileAt (e :: r) 0 = e := rfl
+    rw [this] at hk ⊢
+    unfold gfir
+    simp only [List.flatMap_cons]
+    exact List.getElem?_append_left hk
+
+section ProjectTheorems
+variable {pf : PFacts} {env : PEnv} {doc : ResultsDoc} {σs : List IrSets}
+
+/-- **`project_composition`.** A successful result generation over a project IS the proved
+`Results.generate` on the adapter's program (`toProgP`: keys = positions in the concatenated FileIrs,
+cids = (path of the calling file, Call symbol) classes, `resolve` = the location-aware
+`find_call_target_and_ir`) over the own sets of EVERY file, the TARGET's keys being the roots, in
+order; the document holds `entry` of each target key's result under its name. -/
+theorem project_composition (h : Project.results id pf env = .ok (doc, σs)) :
+    ∃ rs σ', generate (toProgP id pf env) (List.range (fileAt env 0).fir.length) (toStore (gfir env)) = .ok (rs, σ') ∧
+      doc = mkDoc (gfir env) rs ∧
+      ∀ k sym ir, (fileAt env 0).fir[k]? = some (sym, ir) → LastOfName (fileAt env 0).fir k sym.name →
+        ∃ res, (k, res) ∈ rs ∧ Dict.get? doc sym.name = some (entry ir res) := by
+  unfold Project.results at h
+  simp only at h
+  cases hg : genLoop (toProgP id pf env) (crashCtx pf env) (List.range (fileAt env 0).fir.length)
+      (toStore (gfir env)) with
+  | fatal a d => simp [hg] at h
+  | crash e => simp [hg] at h
+  | ok q =>
+    obtain ⟨rs, σ', ds3⟩ := q
+    simp only [hg, FileA.Outcome.ok.injEq, Prod.mk.injEq] at h
+    have hgen := genLoop_generate _ _ _ _ hg
+    refine ⟨rs, σ', hgen, h.1.symm, ?_⟩
+    intro k sym ir hk hlast
+    have hfst := generate_fst _ _ _ _ _ hgen
+    have hklt := lt_length_of_getElem? hk
+    obtain ⟨res, hm⟩ := mem_rs_of_lt hfst hklt
+    obtain ⟨pre, post, e, hpost⟩ := split_at_key hfst hm
+    refine ⟨res, hm, ?_⟩
+    rw [← h.1, e]
+    have hk' : (gfir env)[k]? = some (sym, ir) := by rw [gfir_target hklt]; exact hk
+    refine mkDoc_get? (gfir env) pre post k res sym ir hk' ?_
+    intro p hp sym' ir' hp'
+    have hpm : p ∈ rs := by rw [e]; exact List.mem_append_right _ (List.mem_cons_of_mem _ hp)
+    have hplt : p.1 < (fileAt env 0).fir.length := by
+      have : p.1 ∈ rs.map Prod.fst := List.mem_map.mpr ⟨p, hpm, rfl⟩
+      rw [hfst] at this
+      exact List.mem_range.mp this
+    rw [gfir_target hplt] at hp'
+    exact hlast p.1 sym' ir' (hpost p hp) hp'
+
+/-- **`project_own_and_calls`** — for EVERY project, every call graph across files: the entry of a
+function of the target contains every name of its own IR, and its `calls` are exactly its own
+calls, never a callee's. -/
+theorem project_own_and_calls (h : Project.results id pf env = .ok (doc, σs)) :
+    ∀ k sym ir, (fileAt env 0).fir[k]? = some (sym, ir) → LastOfName (fileAt env 0).fir k sym.name →
+      ∃ e, Dict.get? doc sym.name = some e ∧
+        (∀ x ∈ ir.gets, x.full ∈ e.gets) ∧ (∀ x ∈ ir.sets, x.full ∈ e.sets) ∧
+        (∀ x ∈ ir.dels, x.full ∈ e.dels) ∧ e.calls = sortStrs (ir.calls.map nameOfCall) := by
+  obtain ⟨rs, σ', hg, _, hent⟩ := project_composition h
+  intro k sym ir hk hlast
+  obtain ⟨res, hm, hget⟩ := hent k sym ir hk hlast
+  have hown := C03_own_included _ _ _ _ _ hg k res hm
+  have hk' : (gfir env)[k]? = some (sym, ir) := by rw [gfir_target (lt_length_of_getElem? hk)]; exact hk
+  have hst : toStore (gfir env) k = irSets ir := toStore_eq (gfir env) k (sym, ir) hk'
+  refine ⟨entry ir res, hget, ?_, ?_, ?_, rfl⟩
+  · intro x hx
+    exact (mem_entry_of .get x.full).mpr ⟨x, (hown x).1 (by rw [hst]; exact hx), rfl⟩
+  · intro x hx
+    exact (mem_entry_of .set x.full).mpr ⟨x, (hown x).2.1 (by rw [hst]; exact hx), rfl⟩
+  · intro x hx
+    exact (mem_entry_of .del x.full).mpr ⟨x, (hown x).2.2 (by rw [hst]; exact hx), rfl⟩
+
+/-- **`project_tree_sound_complete`** — sources of ALL files → document, at ANY depth across files.
+If the project's resolvable call graph is in the tree fragment (`TreeFragment` of the combined
+program: acyclic, no call reached along two paths from one root, bare-name arguments, calls Python
+accepts, outside the C04 defect classes), the document entry of EVERY function of the target is
+exactly the closure over the callees in whatever file they live: a spelling is listed iff it is
+derivable in the independent spec. -/
+theorem project_tree_sound_complete (h : Project.results id pf env = .ok (doc, σs))
+    (sigs : List (Spec.Sig Str)) (hF : TreeFragment (specOfP pf env sigs)) :
+    ∀ k sym ir, (fileAt env 0).fir[k]? = some (sym, ir) → LastOfName (fileAt env 0).fir k sym.name →
+      ∃ e, Dict.get? doc sym.name = some e ∧
+        e.calls = sortStrs (ir.calls.map nameOfCall) ∧
+        ∀ n, (n ∈ e.gets ↔ Spec.DerivableGet (specOfP pf env sigs) k n) ∧
+             (n ∈ e.sets ↔ Spec.DerivableSet (specOfP pf env sigs) k n) ∧
+             (n ∈ e.dels ↔ Spec.DerivableDel (specOfP pf env sigs) k n) := by
+  obtain ⟨rs, σ', hg, _, hent⟩ := project_composition h
+  intro k sym ir hk hlast
+  obtain ⟨res, hm, hget⟩ := hent k sym ir hk hlast
+  refine ⟨entry ir res, hget, rfl, ?_⟩
+  intro n
+  obtain ⟨a1, a2, a3⟩ := C03_tree_any_order (specOfP pf env sigs) hF _ rs σ' hg k res hm n
+  refine ⟨?_, ?_, ?_⟩
+  · rw [← a1]; simp [entry, mem_sortStrs, Pipeline.fulls, Cex.fulls]
+  · rw [← a2]; simp [entry, mem_sortStrs, Pipeline.fulls, Cex.fulls]
+  · rw [← a3]; simp [entry, mem_sortStrs, Pipeline.fulls, Cex.fulls]
+
+/-- **`project_sound_all_graphs`** — soundness for EVERY call graph across files (diamonds, shared
+callees, recursion): with bare-name arguments and accepted calls, every spelling the document lists
+for a function of the target is derivable. -/
+theorem project_sound_all_graphs (h : Project.results id pf env = .ok (doc, σs))
+    (sigs : List (Spec.Sig Str)) (hR : CalleeRootBased (specOfP pf env sigs))
+    (hB : BareArgs (specOfP pf env sigs).prog) (hI : IfaceOfSig (specOfP pf env sigs))
+    (hA : AcceptedCalls (specOfP pf env sigs)) (hSig : SigsDistinct (specOfP pf env sigs))
+    (hKw : KwDistinct (specOfP pf env sigs).prog) (hE : OutsideE1E2 (specOfP pf env sigs)) :
+    ∀ k sym ir, (fileAt env 0).fir[k]? = some (sym, ir) → LastOfName (fileAt env 0).fir k sym.name →
+      ∃ e, Dict.get? doc sym.name = some e ∧
+        (∀ n ∈ e.gets, Spec.DerivableGet (specOfP pf env sigs) k n) ∧
+        (∀ n ∈ e.sets, Spec.DerivableSet (specOfP pf env sigs) k n) ∧
+        (∀ n ∈ e.dels, Spec.DerivableDel (specOfP pf env sigs) k n) := by
+  obtain ⟨rs, σ', hg, _, hent⟩ := project_composition h
+  intro k sym ir hk hlast
+  obtain ⟨res, hm, hget⟩ := hent k sym ir hk hlast
+  obtain ⟨a1, a2, a3⟩ := C03_bare_sound_all_graphs (specOfP pf env sigs) (toProgP_cidArgs pf env)
+    hR hB hI hA hSig hKw hE _ rs σ' hg k res hm
+  refine ⟨entry ir res, hget, ?_, ?_, ?_⟩
+  · intro n hn
+    obtain ⟨x, hx, e⟩ := (mem_entry_of .get n).mp hn
+    rw [← e]; exact a1 x hx
+  · intro n hn
+    obtain ⟨x, hx, e⟩ := (mem_entry_of .set n).mp hn
+    rw [← e]; exact a2 x hx
+  · intro n hn
+    obtain ⟨x, hx, e⟩ := (mem_entry_of .del n).mp hn
+    rw [← e]; exact a3 x hx
+
+end ProjectTheorems
+
+/-! ### module-local resolution -/
+
+theorem samePath_trans {env : PEnv} {i j k : Nat} (h1 : samePath env i j = true) (h2 : samePath env j k = true) :
+    samePath env i k = true := by
+  unfold samePath at *
+  rw [beq_iff_eq] at *
+  exact h1.trans h2
+
+/-- **`project_function_resolves_in_its_own_file`.** In a path-coherent environment (every followed
+file is stored under the module name derived from its own path), a call whose target is a FUNCTION
+symbol, found in the IR of file `i`, is resolved — if at all — to a key of a file with the path of
+`i`, and that key carries the very symbol the call targets. It is never resolved to a same-named,
+same-signature function of the target file or of another followed module. -/
+theorem project_function_resolves_in_its_own_file {pf : PFacts} {env : PEnv} (hC : PathCoherent env)
+    {i : Nat} {c : CallSym} {t : Sym} (ht : c.target = some t) (hk : t.kind = .func) {j : Nat} {k : Key}
+    (h : resolveAt pf env i c = .target j k) :
+    samePath env j i = true ∧ ∃ ir, (fileAt env j).fir[k]? = some (t, ir) := by
+  unfold resolveAt at h
+  simp only [ht, hk] at h
+  split at h
+  · cases h
+  · cases hl : locate env i t with
+    | none => simp [hl] at h
+    | some q =>
+      obtain ⟨j', k'⟩ := q
+      simp only [hl, FoundP.target.injEq] at h
+      obtain ⟨e1, e2⟩ := h
+      subst e1; subst e2
+      exact ⟨locate_same_path hC hl, (locate_some hl).2⟩
+
+/-- **`project_class_resolves_in_its_own_file`.** Likewise for a call whose target is a CLASS symbol
+found in file `i`: the initialiser it is resolved to is a class key named like the target, of a file
+with the path of `i` — the class of the calling module, never a same-named class of the target file
+or of another module (and a class without initialiser takes no other class's initialiser). -/
+theorem project_class_resolves_in_its_own_file {pf : PFacts} {env : PEnv} (hC : PathCoherent env)
+    {i : Nat} {c : CallSym} {t : Sym} (ht : c.target = some t) (hk : t.kind = .cls) {j : Nat} {k : Key}
+    (h : resolveAt pf env i c = .target j k) :
+    samePath env j i = true ∧ ∃ s ir, (fileAt env j).fir[k]? = some (s, ir) ∧ s.name = t.name := by
+  unfold resolveAt at h
+  simp only [ht, hk] at h
+  cases hl : locate env (realClassP env i t).1 (realClassP env i t).2 with
+  | none => simp [hl] at h
+  | some q =>
+    obtain ⟨j', k'⟩ := q
+    simp only [hl, FoundP.target.injEq] at h
+    obtain ⟨e1, e2⟩ := h
+    subst e1; subst e2
+    refine ⟨samePath_trans (locate_same_path hC hl) (realClassP_same_path env i t), ?_⟩
+    obtain ⟨ir, hir⟩ := (locate_some hl).2
+    refine ⟨_, ir, hir, ?_⟩
+    unfold realClassP
+    cases hf : (classCands env t.name).find? (fun c => samePath env c.1 i) with
+    | none => rfl
+    | some c' => exact (classCands_mem (List.mem_of_find?_eq_some hf)).2.1
+
+
+/-! ### the whole pipeline on a project, and concrete projects (non-vacuity, kernel evaluation) -/
+
+/-- `Project.run` succeeded: it is the file stages of every file (`analyseAll`: the target's root
+context, every followed module, the target's walk) followed by `Project.results`. -/
+theorem project_run_ok {pf : PFacts} {t : FileIn} {imports : List FileIn} {doc : ResultsDoc} {σs : List IrSets}
+    (h : Project.run pf t imports = .ok (doc, σs)) :
+    ∃ env, analyseAll t imports = .ok env ∧ Project.results id pf env = .ok (doc, σs) := by
+  unfold Project.run Project.runWith at h
+  cases ha : analyseAll t imports with
+  | fatal a d => simp [ha] at h
+  | crash e => simp [ha] at h
+  | ok env => simp only [ha] at h; exact ⟨env, rfl, h⟩
+
+/-- the outcome is `ok (doc, _)`, as a Boolean (for kernel evaluation) -/
+def docIs (o : FileA.Outcome (ResultsDoc × List IrSets)) (doc : ResultsDoc) : Bool :=
+  match o with
+  | .ok (d, _) => decide (d = doc)
+  | _ => false
+
+theorem ok_of_docIs {o : FileA.Outcome (ResultsDoc × List IrSets)} {doc : ResultsDoc}
+    (h : docIs o doc = true) : ∃ σs, o = .ok (doc, σs) := by
+  cases o with
+  | ok a =>
+    obtain ⟨d, s⟩ := a
+    simp only [docIs, decide_eq_true_eq] at h
+    exact ⟨s, by rw [h]⟩
+  | fatal a b => simp [docIs] at h
+  | crash e => simp [docIs] at h
+
+/-! The encodings below are rendered by `py/tools/lean_project.py` from these three files
+
+```
+# alpha.py                          # beta.py                           # target.py
+def _normalise(rec):                def _normalise(rec):                from alpha import load_alpha
+    return rec.alpha_field              return rec.beta_field           from beta import load_beta
+def load_alpha(src):                def load_beta(raw):                 def both(a, b):
+    return _normalise(src)              return _normalise(raw)              return load_alpha(a), load_beta(b)
+                                                                        def only_beta(b):
+                                                                            return load_beta(b)
+```
+(two followed modules, each with its own private `_normalise(rec)`: same name, same parameter list). -/
+
+/-- `target.py` -/
+def twoFile0 : Project.FileIn :=
+  { modName := "".toList, derived := (some "target".toList), pathId := 0,
+    env := envP, mn := "target".toList, facts := { mods := [("alpha".toList, ⟨false, true, true⟩), ("alpha.load_alpha".toList, ⟨false, true, false⟩), ("beta".toList, ⟨false, true, true⟩), ("beta.load_beta".toList, ⟨false, true, false⟩)], isInit := false, excluded := [] },
+    builtins := [S' "print"],
+    body :=
+  [.importFrom (some "alpha".toList) 0 [⟨"load_alpha".toList, none⟩] "".toList false true,
+   .importFrom (some "beta".toList) 0 [⟨"load_beta".toList, none⟩] "".toList false true,
+   .funcDef "both".toList ⟨[], ["a".toList, "b".toList], none, [], none⟩
+      [(.ret [(.seq "Tuple".toList [(.call (.name "load_alpha".toList .load) [(.name "a".toList .load)] [] []), (.call (.name "load_beta".toList .load) [(.name "b".toList .load)] [] [])] .load)])]
+      [] false,
+   .funcDef "only_beta".toList ⟨[], ["b".toList], none, [], none⟩
+      [(.ret [(.call (.name "load_beta".toList .load) [(.name "b".toList .load)] [] [])])]
+      [] false] }
+
+/-- `alpha` -/
+def twoFile1 : Project.FileIn :=
+  { modName := "alpha".toList, derived := (some "alpha".toList), pathId := 1,
+    env := envP, mn := "alpha".toList, facts := { mods := [], isInit := false, excluded := [] },
+    builtins := [S' "print"],
+    body :=
+  [.funcDef "_normalise".toList ⟨[], ["rec".toList], none, [], none⟩
+      [(.ret [(.attr (.name "rec".toList .load) "alpha_field".toList .load)])]
+      [] false,
+   .funcDef "load_alpha".toList ⟨[], ["src".toList], none, [], none⟩
+      [(.ret [(.call (.name "_normalise".toList .load) [(.name "src".toList .load)] [] [])])]
+      [] false] }
+
+/-- `beta` -/
+def twoFile2 : Project.FileIn :=
+  { modName := "beta".toList, derived := (some "beta".toList), pathId := 2,
+    env := envP, mn := "beta".toList, facts := { mods := [], isInit := false, excluded := [] },
+    builtins := [S' "print"],
+    body :=
+  [.funcDef "_normalise".toList ⟨[], ["rec".toList], none, [], none⟩
+      [(.ret [(.attr (.name "rec".toList .load) "beta_field".toList .load)])]
+      [] false,
+   .funcDef "load_beta".toList ⟨[], ["raw".toList], none, [], none⟩
+      [(.ret [(.call (.name "_normalise".toList .load) [(.name "raw".toList .load)] [] [])])]
+      [] false] }
+
+def twoFacts : Project.PFacts :=
+  { excluded := [], existing := ["alpha".toList, "beta".toList], ignored := [] }
+
+def twoDoc : ResultsDoc :=
+  [(S' "both", ⟨[S' "a", S' "a.alpha_field", S' "b", S' "b.beta_field"], [], [], [S' "load_alpha()", S' "load_beta()"]⟩), (S' "only_beta", ⟨[S' "b", S' "b.beta_field"], [], [], [S' "load_beta()"]⟩)]
+
+
+def envTwo : PEnv :=
+  match analyseAll twoFile0 [twoFile1, twoFile2] with
+  | .ok env => env
+  | _ => []
+
+theorem envTwo_eq {env : PEnv} (h : analyseAll twoFile0 [twoFile1, twoFile2] = .ok env) : env = envTwo := by
+  unfold envTwo; rw [h]
+
+attribute [irreducible] envTwo
+
+/-- keys: 0 `both`, 1 `only_beta` (target) · 2 `_normalise`, 3 `load_alpha` (alpha) · 4 `_normalise`,
+5 `load_beta` (beta) -/
+def sigsTwo : List (Spec.Sig Str) :=
+  [sigP ["a", "b"], sigP ["b"], sigP ["rec"], sigP ["src"], sigP ["rec"], sigP ["raw"]]
+def specTwo : Spec.SProg := specOfP twoFacts envTwo sigsTwo
+
+/-- TEST (kernel evaluation of the whole PROJECT model: three root contexts, three file walks, result
+generation over the six functions): the document is the one the real CLI prints with
+`--follow-imports 1`; `both` holds `b.beta_field` (from beta's `_normalise`), not `b.alpha_field`. -/
+theorem project_test_two_helpers :
+    ∃ σs, Project.run twoFacts twoFile0 [twoFile1, twoFile2] = .ok (twoDoc, σs) :=
+  ok_of_docIs (by decide +kernel)
+
+def pathCoherentB (env : PEnv) : Bool :=
+  (List.range env.length).all fun i =>
+    match (fileAt env i).derived with
+    | none => true
+    | some m => match importIdx env m with
+      | none => true
+      | some j => samePath env j i
+
+theorem pathCoherent_of_check {env : PEnv} (h : pathCoherentB env = true) : PathCoherent env := by
+  intro i m j hd hi
+  by_cases hlt : i < env.length
+  · have := List.all_eq_true.mp h i (List.mem_range.mpr hlt)
+    simpa [hd, hi] using this
+  · have : fileAt env i = emptyFile := by
+      unfold fileAt
+      rw [List.getElem?_eq_none (Nat.le_of_not_lt hlt)]
+      rfl
+    rw [this] at hd
+    cases hd
+
+theorem specTwo_treeFragment : TreeFragment specTwo := by
+  have hT : TreeLike specTwo.prog :=
+    treeLike_of_check (fun k => match k with | 0 => 2 | 1 => 2 | 2 => 0 | 3 => 1 | 4 => 0 | _ => 1) 2 (by decide +kernel)
+  have h0 : TreeHyps0 specTwo := treeHyps0_of_check (by decide +kernel)
+  obtain ⟨w1, w2, w3⟩ := c04Ready_of_check (S := specTwo) (by decide +kernel)
+  exact ⟨hT, h0.cid, h0.rootBased, h0.bare, h0.iface, h0.accepted, w1, w2, w3⟩
+
+/-- **`project_two_helpers_closure`** — `project_tree_sound_complete` and the module-local resolution
+theorem APPLIED to the project above: the project is in the tree fragment; the entry of `both` is
+exactly the closure, which holds `a.alpha_field` and `b.beta_field` and NOT `b.alpha_field`; the
+environment is path-coherent, so beta's call `_normalise(raw)` resolves into beta's own FileIr. -/
+theorem project_two_helpers_closure :
+    (∃ e, Dict.get? twoDoc (S' "both") = some e ∧
+      ∀ n, (n ∈ e.gets ↔ Spec.DerivableGet specTwo 0 n) ∧ (n ∈ e.sets ↔ Spec.DerivableSet specTwo 0 n) ∧
+           (n ∈ e.dels ↔ Spec.DerivableDel specTwo 0 n)) ∧
+    (Spec.derive specTwo 2 0).gets = [S' "a", S' "b", S' "a.alpha_field", S' "b.beta_field"] ∧
+    PathCoherent envTwo ∧
+    (∀ c ∈ ((fileAt envTwo 2).fir.flatMap (·.2.calls)), ∀ j k,
+      resolveAt twoFacts envTwo 2 c = .target j k → samePath envTwo j 2 = true) := by
+  have hco : PathCoherent envTwo := pathCoherent_of_check (by decide +kernel)
+  refine ⟨?_, by decide +kernel, hco, ?_⟩
+  · obtain ⟨σs, hrun⟩ := project_test_two_helpers
+    obtain ⟨env, henv, hres⟩ := project_run_ok hrun
+    have he : env = envTwo := envTwo_eq henv
+    subst he
+    obtain ⟨sym, ir, hk, hn, hlast⟩ := key_of_check (fir := (fileAt envTwo 0).fir) (k := 0) (name := S' "both") (by decide +kernel)
+    obtain ⟨e, he, _, hmem⟩ := project_tree_sound_complete hres sigsTwo specTwo_treeFragment 0 sym ir hk hlast
+    rw [hn] at he
+    exact ⟨e, he, hmem⟩
+  · intro c hc j k hr
+    have hkind : ((fileAt envTwo 2).fir.flatMap (·.2.calls)).all
+        (fun c => match c.target with | some t => t.kind == .func | none => false) = true := by decide +kernel
+    have := List.all_eq_true.mp hkind c hc
+    cases ht : c.target with
+    | none => simp [ht] at this
+    | some t =>
+      simp only [ht, beq_iff_eq] at this
+      exact (project_function_resolves_in_its_own_file hco ht this hr).1
+
+/-! The same project with BOTH loaders spelling their parameter `src`: the two calls `_normalise(src)`
+are equal Call symbols (equality ignores the location of the target) made in two different files;
+`make_target_ir_call_tree` keys `seen` on the symbol AND the calling file, so both are expanded. -/
+
+/-- `target.py` -/
+def dupFile0 : Project.FileIn :=
+  { modName := "".toList, derived := (some "target".toList), pathId := 0,
+    env := envP, mn := "target".toList, facts := { mods := [("alpha".toList, ⟨false, true, true⟩), ("alpha.load_alpha".toList, ⟨false, true, false⟩), ("beta".toList, ⟨false, true, true⟩), ("beta.load_beta".toList, ⟨false, true, false⟩)], isInit := false, excluded := [] },
+    builtins := [S' "print"],
+    body :=
+  [.importFrom (some "alpha".toList) 0 [⟨"load_alpha".toList, none⟩] "".toList false true,
+   .importFrom (some "beta".toList) 0 [⟨"load_beta".toList, none⟩] "".toList false true,
+   .funcDef "both".toList ⟨[], ["a".toList, "b".toList], none, [], none⟩
+      [(.ret [(.seq "Tuple".toList [(.call (.name "load_alpha".toList .load) [(.name "a".toList .load)] [] []), (.call (.name "load_beta".toList .load) [(.name "b".toList .load)] [] [])] .load)])]
+      [] false] }
+
+/-- `alpha` -/
+def dupFile1 : Project.FileIn :=
+  { modName := "alpha".toList, derived := (some "alpha".toList), pathId := 1,
+    env := envP, mn := "alpha".toList, facts := { mods := [], isInit := false, excluded := [] },
+    builtins := [S' "print"],
+    body :=
+  [.funcDef "_normalise".toList ⟨[], ["rec".toList], none, [], none⟩
+      [(.ret [(.attr (.name "rec".toList .load) "alpha_field".toList .load)])]
+      [] false,
+   .funcDef "load_alpha".toList ⟨[], ["src".toList], none, [], none⟩
+      [(.ret [(.call (.name "_normalise".toList .load) [(.name "src".toList .load)] [] [])])]
+      [] false] }
+
+/-- `beta` -/
+def dupFile2 : Project.FileIn :=
+  { modName := "beta".toList, derived := (some "beta".toList), pathId := 2,
+    env := envP, mn := "beta".toList, facts := { mods := [], isInit := false, excluded := [] },
+    builtins := [S' "print"],
+    body :=
+  [.funcDef "_normalise".toList ⟨[], ["rec".toList], none, [], none⟩
+      [(.ret [(.attr (.name "rec".toList .load) "beta_field".toList .load)])]
+      [] false,
+   .funcDef "load_beta".toList ⟨[], ["src".toList], none, [], none⟩
+      [(.ret [(.call (.name "_normalise".toList .load) [(.name "src".toList .load)] [] [])])]
+      [] false] }
+
+def dupFacts : Project.PFacts :=
+  { excluded := [], existing := ["alpha".toList, "beta".toList], ignored := [] }
+
+def dupDoc : ResultsDoc :=
+  [(S' "both", ⟨[S' "a", S' "a.alpha_field", S' "b", S' "b.beta_field"], [], [], [S' "load_alpha()", S' "load_beta()"]⟩)]
+
+
+/-- TEST (kernel evaluation): equal call records made in two different files are both expanded —
+`both` holds `b.beta_field`. -/
+theorem project_test_same_record_two_files :
+    ∃ σs, Project.run dupFacts dupFile0 [dupFile1, dupFile2] = .ok (dupDoc, σs) :=
+  ok_of_docIs (by decide +kernel)
+
+end Rattr.C03
+
+/-! ### the project model extends the single-file model -/
+
+namespace Rattr.C03
+open Rattr Rattr.Results Rattr.Pipeline Rattr.Spec Rattr.Project
+
+theorem importIdx_single (e : FileE) (m : Str) : importIdx [e] m = none := by
+  simp [importIdx, indexOf?]
+
+theorem samePath_single (e : FileE) : samePath [e] 0 0 = true := by simp [samePath]
+
+theorem locate_single (e : FileE) (s : Sym) : locate [e] 0 s = (keyOf e.fir s).map fun k => (0, k) := by
+  unfold locate
+  simp only [samePath_single, if_true]
+  have hf : fileAt [e] 0 = e := rfl
+  rw [hf]
+  cases hk : keyOf e.fir s with
+  | some k => rfl
+  | none =>
+    cases hd : e.derived with
+    | none => simp
+    | some m => simp [importIdx_single]
+
+theorem find?_filter_map_all {α β : Type} (l : List α) (P : α → Bool) (g : α → β) (q : β → Bool)
+    (hq : ∀ a, q (g a) = true) :
+    ((l.filter P).map g).find? q = (l.find? P).map g := by
+  induction l with
+  | nil => rfl
+  | cons a r ih =>
+    by_cases h : P a = true
+    · simp [List.filter, h, hq]
+    · simp only [Bool.not_eq_true] at h
+      simp [List.filter, h, ih]
+
+theorem realClassP_single (e : FileE) (t : Sym) : realClassP [e] 0 t = (0, realClass e.fir t) := by
+  unfold realClassP realClass
+  have hc : classCands [e] t.name = (e.fir.filter fun p => p.1.kind == .cls && p.1.name == t.name).map fun p => (0, p.1) := by
+    simp [classCands, fileAt]
+  rw [hc]
+  have : (((e.fir.filter fun p => p.1.kind == .cls && p.1.name == t.name).map fun p => ((0 : Nat), p.1)).find?
+      fun c => samePath [e] c.1 0) = (e.fir.find? fun p => p.1.kind == .cls && p.1.name == t.name).map fun p => (0, p.1) :=
+    find?_filter_map_all _ _ _ _ (fun a => by simp [samePath])
+  rw [this]
+  cases e.fir.find? fun p => p.1.kind == .cls && p.1.name == t.name <;> rfl
+
+/-- **`project_single_file_resolution`** — the project model extends the single-file one: on an
+environment that is just the target file, `find_call_target_and_ir` of the project model answers
+exactly like the single-file `Pipeline.resolveCall` for every call whose target is not an import
+(imports are followed here and ignored there). -/
+theorem project_single_file_resolution (pf : PFacts) (f : Facts) (imp : ImpFacts) (e : FileE) (c : CallSym)
+    (hx : f.excluded = pf.excluded) (hk : ∀ t, c.target = some t → t.kind ≠ .import_) :
+    (match resolveAt pf [e] 0 c with
+      | .target j k => Found.target (gkey [e] j k)
+      | .nothing => Found.nothing
+      | .crash x => Found.crash x) = resolveCall f imp e.fir c := by
+  unfold resolveAt resolveCall
+  cases ht : c.target with
+  | none => rfl
+  | some t =>
+    have hki := hk t ht
+    simp only
+    cases hkind : t.kind with
+    | builtin => rfl
+    | name => rfl
+    | import_ => exact absurd hkind hki
+    | func =>
+      simp only [FileA.excluded, hx]
+      by_cases hex : pf.excluded.contains t.name = true
+      · simp only [hex, if_true]
+      · simp only [hex, Bool.false_eq_true, if_false]
+        rw [locate_single]
+        cases keyOf e.fir t with
+        | none => rfl
+        | some k => simp [gkey, offset]
+    | cls =>
+      simp only [realClassP_single]
+      rw [locate_single]
+      cases keyOf e.fir (realClass e.fir t) with
+      | none => rfl
+      | some k => simp [gkey, offset]
 end Rattr.C03
